@@ -13,7 +13,7 @@ import os, shutil, subprocess
 
 from .. import hostile, build
 from ..cli import run_cli
-from ..common import Inconclusive, write_tree
+from ..common import Inconclusive, write_tree, hash_str
 from ..lsp import LSP, uri_to_path
 from ..pymodel import FileModel
 from ..reqs import all_position_requests, all_document_requests
@@ -166,7 +166,7 @@ def run(ctx):
                 vh = VH(vh_bin())
             ctx.nontrivial(("doc", label.rstrip("0123456789_")))
             if i < n_srv or label in ("chain_1500", "nested_150", "long_line", "many_lines", "inlay_targets") or \
-                    (label.startswith("typing_") and hash(label) % 5 == 0):
+                    (label.startswith("typing_") and hash_str(label) % 5 == 0):
                 server_doc_session(ctx, label, text, ctx.rng)
         ctx.sample({"doc": docs[0][0], "text": docs[0][1][:300]})
     finally:
